@@ -62,6 +62,7 @@ def _progress(steps, at):
 
 
 def gen(rng, tier):
+    yield from _gen_bad_accept(rng, tier)
     for be in ("asyncio", "trio"):
         for paths in ([b"/crash0", b"/ok1"], [b"/crash1", b"/ok2"], [b"/crash0", b"/crash1", b"/crash0", b"/ok3"]):
             yield {"family": "serve-smoke", "kind": "serve-smoke", "backend": be, "paths": paths}
@@ -272,11 +273,33 @@ def gen(rng, tier):
                             }
 
 
+def _gen_bad_accept(rng, tier):
+    """The failure happens *inside* the application's accept: the server refuses the websocket.accept (a subprotocol the client never
+    offered, a pseudo header, str instead of bytes, the subprotocol smuggled in as a header) and the application lets that error propagate.
+    No response had been started: the client gets a 500, the connection handler survives."""
+    bads = [{"type": "websocket.accept", "subprotocol": "never-offered"},
+            {"type": "websocket.accept", "headers": [(b":status", b"200")]},
+            {"type": "websocket.accept", "headers": [("x-str", "v")]},
+            {"type": "websocket.accept", "headers": [(b"sec-websocket-protocol", b"chat")]},
+            {"type": "websocket.accept", "headers": [(b"x-a", b"1"), (b"bad name", b"v")]}]
+    for rep in range(1 if tier == "quick" else 6):
+        for k, bad in enumerate(bads):
+            tag = 7700000 + rep * 10 + k
+            script = [["recv"], ["send", bad], ["recv"]]
+            yield {"family": "ws.handshake.bad-accept", "backends": ["asyncio", "trio"], "config": {"keep_alive_timeout": 5000}, "conn": {},
+                   "apps": {"default": script, "websocket": script}, "client": [["feed", ws.handshake(path=b"/t%d" % tag)], ["settle"]],
+                   "reactor": {"kind": "ws"}, "truth": {"proto": "ws", "at": 1, "kind": "refused-accept-%d" % k, "tag": tag, "accepted": False, "steps": 3},
+                   "sched": {"seed": rng.randrange(1 << 30)}, "horizon": 100.0}
+
+
 def nontrivial(case, obs):
     if obs is None:
         return True
     if case.get("truth", {}).get("kind") == "short-body":
         return any(e[3] == "exit" for e in obs.trace.events if e[2] == "app")
+    if str(case.get("truth", {}).get("kind", "")).startswith("refused-accept"):
+        # the failure is the server's refusal raised out of the application's send
+        return any(e[3] == "send!" for e in obs.trace.events if e[2] == "app")
     if case.get("truth", {}).get("proto") == "wsgi":
         rec = obs.apps if isinstance(obs.apps, dict) else {}
         return bool(rec.get("calls"))
